@@ -488,8 +488,13 @@ def run_property(pid, tier, only, jobs, keep, seed):
                     for k in kn:
                         log("KNOWN-FINDING: property=%s %s [%s: %s]" % (pid, k["what"], h["name"], k["check"]))
                     continue
-                # replay before reporting
-                if h.get("replay", "playback") == "playback":
+                # replay before reporting; failures that are only built-in checks of Kani's library models
+                # (free/memcpy preconditions, unsupported-construct markers) have no concrete playback
+                user = [fc for fc in r["failed_checks"] if "kani_lib.c" not in (fc.get("location") or "")
+                        and "library/kani" not in (fc.get("location") or "") and "builtin-library" not in (fc.get("location") or "")]
+                if not user:
+                    rp = {"reproduced": None, "detail": "only checks inside Kani's allocator/intrinsic models failed", "tests": []}
+                elif h.get("replay", "playback") == "playback":
                     rp = concrete_playback(slot, prop, h, os.path.join(logdir, "replay-" + h["name"]))
                 else:
                     rp = {"reproduced": None, "detail": "harness has no native replay (model-only)", "tests": []}
